@@ -19,7 +19,7 @@ to the real code.
   2. answers (`gen_answers`): (status, content type, body) through the REAL `http::post_jose` / `http::get`
      against the probe's loop-back server and `ValidHttpResponse::json::<T>()` (op `acme_classify`), and
      through `classifyAnswer` / `classifyGet` / `stepOutcome`.  Compared: success / ACME error (type,
-     recoverable) / other failure, retry or not (10 POSTs and "too much errors" = every round retried).
+     recoverable) / other failure, retry or not (10 POSTs and no ApiError = every round retried).
      Judged: `neverSuccess` on the observed outcome.
   3. `AcmeError::from(String)` + `is_recoverable` on the URNs of the compiled table and near misses (op
      `acme_errtype`).
@@ -750,8 +750,9 @@ def run_answers(ctx, answers, retry_bound, quiet=False):
             elif r.get("posts") == 1:
                 if m.get("class") != "other":
                     bad = "the code gives up at once with `%s`, the model: %s" % (r.get("message"), m)
-            elif not (m.get("class") == "acme" and m.get("recoverable") and r.get("posts") == retry_bound
-                      and r.get("message") == "too much errors, will not retry"):
+            # (the wording of the final message is not compared: `retry_bound` POSTs and no ApiError IS "every round
+            # was answered with a recoverable error")
+            elif not (m.get("class") == "acme" and m.get("recoverable") and r.get("posts") == retry_bound):
                 bad = "the code sent %s POSTs and ended with `%s`, the model: %s" % (r.get("posts"), r.get("message"), m)
         if bad:
             ctx.disagreements += 1
